@@ -82,7 +82,7 @@ def c07(m, tier):
     # existence test of the label accessor is the store itself
     return _pair(m, None, ['F-PAIR.L'], {'F-PAIR.L': 30}) + [rules_val.rule_val(m, eng), rules_val.rule_sanitizer(m, eng), rules_val.rule_throw_before_write(m),
             rules_val.rule_getlabel(m), rules_decl.rule_throw(m), rules_struct.rule_label_writes(m), rules_decl.rule_defaults(m), rules_ts.rule_cursor_direction(m),
-            rules_val.rule_invented_index(m), rules_decl.rule_noexcept(m)]
+            rules_val.rule_invented_index(m), rules_decl.rule_noexcept(m), rules_ts.rule_string_plus_int(m)]
 
 
 def _pair(m, classes, rules, minimum):
@@ -133,7 +133,8 @@ def c04(m, tier):
         rules_struct.rule_positive_multiplicity(m), rules_struct.rule_insertion_guard(m),
         rules_struct.rule_observers(m), rules_struct.rule_selfloop_convention(m), rules_struct.rule_label_writes(m),
         rules_struct.rule_bulk_complete(m), rules_struct.rule_setters(m),
-        rules_struct.rule_forwarding(m), rules_struct.rule_observer_loops(m), rules_struct.rule_full_loops(m, [DMG, UMG]), rules_decl.rule_defaults(m), rules_ts.rule_cursor_direction(m)]
+        rules_struct.rule_forwarding(m), rules_struct.rule_observer_loops(m), rules_struct.rule_full_loops(m, [DMG, UMG]), rules_decl.rule_defaults(m), rules_ts.rule_cursor_direction(m),
+        rules_ts.rule_accumulator_width(m)]
 
 
 def c05(m, tier):
@@ -156,7 +157,7 @@ def c16(m, tier):
     return [rules_struct.rule_insertion_guard(m)] + _pair(
         m, None, ['F-PAIR.N', 'F-PAIR.T', 'F-PAIR.M', 'F-PAIR.L'],
         {'F-PAIR.N': 40, 'F-PAIR.T': 17, 'F-PAIR.M': 15, 'F-PAIR.L': 30}) + [rules_ts.rule_sorted_range(m), rules_decl.rule_defaults(m), rules_ts.rule_cursor_direction(m),
-         rules_struct.rule_selfloop_convention(m), rules_struct.rule_forwarding(m)]
+         rules_struct.rule_selfloop_convention(m), rules_struct.rule_forwarding(m), rules_ts.rule_accumulator_width(m)]
 
 
 def c08(m, tier):
@@ -183,7 +184,7 @@ def c13(m, tier):
 
 def c14(m, tier):
     out = [rules_io.rule_schema_binary(m), rules_io.rule_open(m), rules_io.rule_grow(m, 'binary'), rules_decl.rule_throw(m),
-           dropped_cells_result(m, {'io.bin'}), rules_io.rule_checked_read(m)]
+           dropped_cells_result(m, {'io.bin'}), rules_io.rule_checked_read(m), rules_io.rule_index_width(m)]
     if tier == 'thorough':
         out.append(rules_io.rule_endian_ir())
     return out
@@ -198,7 +199,8 @@ def c17(m, tier):
     wl, bound, heap = rules_wl.run_searches(m, {'S-LC'})
     heap.require_sites(3, 'heap facts')
     return [rules_ts.rule_typestate(m), heap, rules_io.rule_checked_read(m), rules_val.rule_val(m, val_engine(m)),
-            rules_xport.rule_idx(m), rules_io.rule_wrap(m), rules_io.rule_tokeniser_access(m), rules_decl.rule_init(m), rules_ts.rule_signed_arith(m), rules_ts.rule_sorted_range(m), rules_ts.rule_cursor_direction(m), rules_io.rule_grow(m, 'text'), rules_ts.rule_cursor_live(m)]
+            rules_xport.rule_idx(m), rules_io.rule_wrap(m), rules_io.rule_tokeniser_access(m), rules_decl.rule_init(m), rules_ts.rule_signed_arith(m), rules_ts.rule_sorted_range(m), rules_ts.rule_cursor_direction(m), rules_io.rule_grow(m, 'text'), rules_ts.rule_cursor_live(m),
+            rules_ts.rule_accumulator_width(m), rules_ts.rule_string_plus_int(m)]
 
 
 def c11(m, tier):
@@ -465,6 +467,7 @@ def scope_entries(m, prop):
         'C04': E(DMG) | E(UMG),
         'C05': E(DWG) | E(UWG),
         'C08': {t for t in (E(LDG) | E(LUG)) if '::Edges' in t or t.split('#')[0].endswith(('::begin', '::end', '::edges'))} |
+               {t for t in E(LDG) if t.split('#')[0].endswith('::getReversedGraph')} |
                {t for t in E(LUG) if t.split('#')[0].endswith('::getDirectedGraph') or
                 (t.split('#')[0].endswith('::LabeledUndirectedGraph') and 'LabeledDirectedGraph' in t.split('#')[1])} |
                {tk for f in m.fns if (f.record or '') == 'BaseGraph::VertexIterator' for tk in m.tkeys_of(f.tname)},
